@@ -82,6 +82,10 @@ impl ShapeIndex {
     }
 }
 
+/// Upper bound on the number of index entries for which memory is reserved before
+/// the entries were actually read from the source.
+const MAX_PREALLOCATED_INDEX_ENTRIES: usize = 4096;
+
 fn invalid_data(msg: &'static str) -> Error {
     Error::IoError(std::io::Error::new(std::io::ErrorKind::InvalidData, msg))
 }
@@ -93,7 +97,9 @@ fn read_index_file<T: Read>(mut source: T) -> Result<Vec<ShapeIndex>, Error> {
     // The lengths stored in the file cannot be trusted: no i32 arithmetic on them
     let num_bytes = i64::from(header.file_length) * 2 - i64::from(header::HEADER_SIZE);
     let num_shapes = (num_bytes / INDEX_RECORD_SIZE as i64).max(0) as usize;
-    let mut shapes_index = Vec::<ShapeIndex>::with_capacity(num_shapes);
+    // The header is not trusted for the allocation, the vec grows as entries are read
+    let mut shapes_index =
+        Vec::<ShapeIndex>::with_capacity(num_shapes.min(MAX_PREALLOCATED_INDEX_ENTRIES));
     for _ in 0..num_shapes {
         let offset = source.read_i32::<BigEndian>()?;
         let record_size = source.read_i32::<BigEndian>()?;
